@@ -627,6 +627,7 @@ def run(ctx):
 
     sess = ctx.session('falcon.asgi.App websocket session = Ws model (handleMw)', 'wsdriver')
     F_NAME = 'receive in accepted state delivers the next message'
+    known_recorded = [0]
     F_WHAT = 'receive_*() raised AssertionError after a rejected close(): the failed close stopped the pump (max_receive_queue > 0)'
     F3_WHAT = 'receive_*() raised AssertionError after a close() whose server send raised: the failed close stopped the pump (max_receive_queue > 0)'
 
@@ -649,9 +650,15 @@ def run(ctx):
         f1 = f3 = None
         if isinstance(bad, tuple):
             f1, f3 = bad[1], bad[2]; bad = None
-        ctx.oracle(F_NAME, f1 is None, F_WHAT, dict(case, observed=seen, where=f1))
-        if f3:
-            ctx.oracle(F_NAME, False, F3_WHAT, dict(case, observed=seen, where=f3)); ctx.count('finding_receive_after_close_whose_send_failed')
+        # the known class (F25) is recorded for the first 20 sessions of a shard and counted afterwards, so that it can never
+        # crowd genuine failures out of the runner's bounded failure list
+        if f1 is None and f3 is None:
+            ctx.oracle(F_NAME, True)
+        elif known_recorded[0] < 20:
+            known_recorded[0] += 1
+            if f1: ctx.oracle(F_NAME, False, F_WHAT, dict(case, observed=seen, where=f1))
+            if f3: ctx.oracle(F_NAME, False, F3_WHAT, dict(case, observed=seen, where=f3))
+        if f3: ctx.count('finding_receive_after_close_whose_send_failed')
         if f1: ctx.count('finding_receive_after_rejected_close')
         ctx.oracle('every operation has its documented outcome for the state it is called in; payloads unchanged and in order',
                    bad is None, bad, dict(case, observed=seen))
